@@ -205,6 +205,8 @@ func VH_C19_Purity() {
 	s.Items[0].StartAt = time.Duration(nondetInt64(0, 59)) * time.Second
 	s.Items[0].EndAt = s.Items[0].StartAt + time.Second
 	s.Items = append(s.Items, &Item{StartAt: 5000 * time.Second, EndAt: 5001 * time.Second, Lines: []Line{{VoiceName: "Bob", Items: []LineItem{{Text: "a", InlineStyle: &StyleAttributes{SRTBold: true, WebVTTTags: []WebVTTTag{{Name: "b"}}}}, {Text: "b"}}}}})
+	// a cue whose last run and whose last line are empty (what a reader may leave behind)
+	s.Items = append(s.Items, &Item{StartAt: 6000 * time.Second, EndAt: 6001 * time.Second, Lines: []Line{{Items: []LineItem{{Text: "Third"}, {Text: ""}}}, {Items: []LineItem{{Text: ""}}}}})
 	before := vc19Clone(s)
 	vreach("pre")
 	if format == 4 {
